@@ -295,3 +295,8 @@ def meta(results, tier):
             'assumptions': ['A-SQL-iso for the atomic steps', 'no interleaving executed',
                             '__eq__/__ne__ and the views are covered by the bounded stand-in only'],
             'explanation': 'delegate obligations for every Index method; popitem/setdefault atomic steps; lookup of a continuously present key'}
+
+
+def post_process(results, tier):
+    from contracts import c03 as _c03
+    return _c03.dependency_rename('C12', results)
